@@ -2,12 +2,16 @@ package scen
 
 import (
 	"fmt"
+	"os"
 	"runtime/debug"
 	"strings"
 
+	"lunar/engine/routing"
 	"lunar/engine/streams"
 	"lunar/engine/streams/validation"
-	engineutils "lunar/engine/utils"
+
+	"github.com/negasus/haproxy-spoe-go/message"
+	"github.com/negasus/haproxy-spoe-go/payload/kv"
 
 	"verifsim/kernel"
 )
@@ -362,7 +366,26 @@ func runC05(s *kernel.Sim) {
 			}
 		}
 	}
-	env := &engineEnv{Dir: dir, Stream: st, Shared: newShared()}
+	// transactions enter at the real SPOE entry points of the handler (argument
+	// decoding, flow run, conversion of the actions into SPOE actions), on a
+	// streams-mode manager built from the same directory
+	c08setEnv(dir)
+	if m, _ := os.ReadFile("/repo/proxy/metrics.yaml"); true {
+		os.WriteFile(os.Getenv("LUNAR_PROXY_METRICS_CONFIG_DEFAULT"), m, 0o644)
+		tmpDirs = append(tmpDirs, os.Getenv("LUNAR_PROXY_METRICS_CONFIG_DEFAULT"), os.Getenv("LUNAR_FLOWS_PATH_PARAM_CONFIG"))
+	}
+	installHAProxy()
+	var mgr *routing.HandlingDataManager
+	var merr error
+	if p := guarded(func() { mgr, merr = routing.NewVerifStreamsManager() }); p != "" {
+		s.Violate("R2", "load-panicked", "the configuration was accepted by validation but building the handler's engine panicked: %s", p)
+		return
+	}
+	if merr != nil {
+		s.Violate("R2", "accepted-but-load-fails", "the configuration was accepted by validation but the handler cannot load it: %v", merr)
+		return
+	}
+	_ = st
 	bodies := []string{"", "{not json", `{"a":1}`, strings.Repeat("x", 70000), `{"email":"john.doe@example.com","card":"4111 1111 1111 1111"}`}
 	paths := []string{"/c", "/c", "/c/extra", "", "//", "/c?x=1", "/c/%zz", "/c/100%", "/c\x7f", "/c?x=1&y=%zz"}
 	for ti := 0; ti < 10 && !s.Failed(); ti++ {
@@ -377,12 +400,15 @@ func runC05(s *kernel.Sim) {
 			hdr["content-encoding"] = "gzip"
 		}
 		path := paths[tp.Choose(len(paths))]
+		query := ""
+		if i := strings.IndexByte(path, '?'); i >= 0 {
+			path, query = path[:i], path[i+1:]
+		}
 		body := bodies[tp.Choose(len(bodies))]
 		id := fmt.Sprintf("t%d", ti)
-		m := reqMsg(id, []string{"GET", "POST"}[tp.Choose(2)], "a.com", path, hdr)
-		m.RawBody = []byte(body)
-		// the header block as HAProxy hands it over, decoded by the gateway's own
-		// parser; one block in six is not parseable as MIME headers
+		method := []string{"GET", "POST"}[tp.Choose(2)]
+		// the header block as HAProxy hands it over; one block in six is not
+		// parseable as MIME headers
 		block := ""
 		for _, k := range sortedKeys(hdr) {
 			block += k + ": " + hdr[k] + "\r\n"
@@ -391,25 +417,45 @@ func runC05(s *kernel.Sim) {
 			block = []string{"this line has no colon\r\n" + block, ": empty-name\r\n" + block, "x-a: 1\r\n bad continuation \x00\r\nnocolon"}[tp.Choose(3)]
 			mutations = append(mutations, "malformed-header-block")
 		}
-		m.Headers = engineutils.ParseHeaders(&block)
+		rk := kv.NewKV()
+		rk.Add("id", id)
+		rk.Add("sequence_id", id)
+		rk.Add("method", method)
+		rk.Add("scheme", "https")
+		rk.Add("url", "a.com"+path)
+		rk.Add("path", path)
+		rk.Add("query", query)
+		rk.Add("headers", block)
+		rk.Add("body", []byte(body))
 		s.Rule("R3")
 		count = 0
-		var out reqOutcome
-		if p := guarded(func() { out = env.doRequest(m) }); p != "" {
+		var perr error
+		if p := guarded(func() {
+			_, perr = routing.VerifProcessRequest(&message.Message{Name: "lunar-on-request", KV: rk}, mgr)
+		}); p != "" {
 			c05report(s, "request", p, f, mutations, hdr)
 			return
 		}
-		s.Event("request", path, fmt.Sprintf("steps=%d early=%v err=%v", count, out.Early, out.Err))
+		s.Event("request", path, fmt.Sprintf("steps=%d err=%v", count, perr))
 		count = 0
-		status := []int{200, 500, 429}[tp.Choose(3)]
-		if p := guarded(func() { env.doResponseFull(id, id, m.Method, "a.com", path, status, hdr) }); p != "" {
+		status := []int64{200, 500, 429}[tp.Choose(3)]
+		pk := kv.NewKV()
+		pk.Add("id", id)
+		pk.Add("sequence_id", id)
+		pk.Add("method", method)
+		pk.Add("url", "a.com"+path)
+		pk.Add("status", status)
+		pk.Add("headers", block)
+		pk.Add("body", []byte(body))
+		if p := guarded(func() {
+			_, perr = routing.VerifProcessResponse(&message.Message{Name: "lunar-on-response", KV: pk}, mgr)
+		}); p != "" {
 			c05report(s, "response", p, f, mutations, hdr)
 			return
 		}
 		s.State(fmt.Sprintf("steps%d", count))
 	}
 }
-
 func c05report(s *kernel.Sim, side, p string, f *c04flow, mutations []string, hdr map[string]string) {
 	if strings.HasPrefix(p, "budget:") {
 		s.Violate("R3", "unbounded-execution", "an accepted configuration executed more than %d processors for one %s (unbounded execution); flow req=%v resp=%v mutations=%v steering=%v", c05Budget, side, f.req, f.resp, mutations, hdr)
